@@ -767,8 +767,100 @@ func storeFailsWhileSessionEnds(r *monitor.Run) {
 	}
 }
 
+// sessionReplaced: the only subscriber of a topic on node B has a stored session; it goes offline and the same client id
+// comes back with Clean Start 1 (or its session is terminated through the API) and does not subscribe again. The old
+// session - and with it the node's need for the topic - is gone: A forgets it and forwards nothing.
+func sessionReplaced(r *monitor.Run) {
+	id := atomic.AddInt64(&scenarioSeq, 1)
+	a, err := fed.Start(fmt.Sprintf("c17r%dA", id), nil, false, nil)
+	if err != nil {
+		r.Inconclusive("pair: " + err.Error())
+		return
+	}
+	defer a.Stop()
+	b, err := fed.Start(fmt.Sprintf("c17r%dB", id), []string{a.Gossip}, false, nil)
+	if err != nil {
+		r.Inconclusive("pair: " + err.Error())
+		return
+	}
+	defer b.Stop()
+	if !fed.WaitView(a, b, settle) || !fed.WaitView(b, a, settle) {
+		r.Inconclusive("pair: federation not established")
+		return
+	}
+	pub, err := wire.Dial("sr-pub", a.B.Addr, mqttx.V5)
+	if err != nil {
+		r.Inconclusive(err.Error())
+		return
+	}
+	defer pub.Close()
+	if _, err := pub.Connect(&mqttx.Packet{ClientID: "sr-pub", CleanStart: true}, step); err != nil {
+		r.Inconclusive(err.Error())
+		return
+	}
+	for vi, how := range []string{"clean_start_online", "clean_start_offline", "terminate_offline"} {
+		cid := fmt.Sprintf("sr-client-%d", vi)
+		topic := fmt.Sprintf("sr/%d/t", vi)
+		exp := uint32(3600)
+		connect := func(clean bool) (*wire.Client, error) {
+			c, err := wire.Dial(cid, b.B.Addr, mqttx.V5)
+			if err != nil {
+				return nil, err
+			}
+			_, err = c.Connect(&mqttx.Packet{ClientID: cid, CleanStart: clean, Props: &mqttx.Props{SessionExpiry: &exp}}, step)
+			return c, err
+		}
+		c1, err := connect(true)
+		if err != nil {
+			r.Inconclusive(err.Error())
+			return
+		}
+		if _, err := c1.Subscribe([]mqttx.Sub{{Filter: topic, QoS: 1}, {Filter: "$share/srg/" + topic + "/s", QoS: 1}}, 0, step); err != nil {
+			r.Inconclusive(err.Error())
+			return
+		}
+		r.Eval(1)
+		if !fed.WaitView(a, b, settle) {
+			r.Violation("session_replaced.view_before", fmt.Sprintf("A's view of B %v never became B's subscriptions %v", a.F.VerifFedView(b.Name), fed.ActualTopics(b)), nil)
+			return
+		}
+		if how != "clean_start_online" {
+			from := b.B.Log.Len()
+			c1.Disconnect(0, nil)
+			b.B.Log.Wait(from, func(e broker.Event) bool { return e.Kind == "OnClosed" && e.Client == cid }, step)
+		}
+		var c2 *wire.Client
+		if how == "terminate_offline" {
+			b.B.Srv.ClientService().TerminateSession(cid)
+		} else {
+			if c2, err = connect(true); err != nil {
+				r.Inconclusive(err.Error())
+				return
+			}
+			defer c2.Close()
+		}
+		c1.Close()
+		if !fed.WaitView(a, b, settle) {
+			r.Violation("session_replaced.stale_view:how="+how, fmt.Sprintf("the stored session of the only subscriber of %s on node B was ended (%s), its subscriptions are gone (B's subscription store: %v), but %v later B still announces %v and A believes B needs %v", topic, how, fed.ActualTopics(b), settle, b.F.VerifLocalTopics(), a.F.VerifFedView(b.Name)), nil)
+			continue
+		}
+		before := len(fed.AppliedBy(b.Name, a.Name))
+		_, _ = pub.Publish(&mqttx.Packet{Topic: topic, QoS: 1, Payload: []byte("after-" + cid)}, step)
+		_, _ = pub.Publish(&mqttx.Packet{Topic: topic + "/s", QoS: 1, Payload: []byte("after-s-" + cid)}, step)
+		time.Sleep(200 * time.Millisecond)
+		for _, ev := range fed.AppliedBy(b.Name, a.Name)[before:] {
+			if ev.Kind == "msg" && strings.HasPrefix(ev.Payload, "after-") {
+				r.Violation("session_replaced.forwarded_to_node_without_subscription:how="+how, fmt.Sprintf("message %q was forwarded to node B, which has no matching subscription any more", ev.Payload), nil)
+			}
+		}
+		r.Count("stored_sessions_replaced_without_resubscribing", 1)
+		r.Nontrivial("session-replaced|" + how)
+	}
+}
+
 func Run(r *monitor.Run) {
 	storeFailsWhileSessionEnds(r)
+	sessionReplaced(r)
 	n := r.Pick(16, 400)
 	rng := r.Rand("scenarios")
 	scs := make([]Scenario, n)
